@@ -247,7 +247,16 @@ var ops = map[string]opFn{
 	"lwrite":  func(e *env, t int) { _, _ = e.LWS.Write([]byte("x")) },
 	"lsync":   func(e *env, t int) { _ = e.LWS.Sync() },
 	"obsall":  func(e *env, t int) { _ = e.obs.All(); _ = e.obs.Len() },
-	"obstake": func(e *env, t int) { _ = e.obs.TakeAll() },
+	// the batch TakeAll hands out belongs to the caller: it is read, without any lock, after others may have logged again
+	"obstake": func(e *env, t int) {
+		b := e.obs.TakeAll()
+		vsched.Yield()
+		n := 0
+		for i := range b {
+			n += len(b[i].Message) + len(b[i].Context) + int(b[i].Level)
+		}
+		_ = n
+	},
 	"obsfilt": func(e *env, t int) { _ = e.obs.FilterMessage("m").Len() },
 }
 
